@@ -24,7 +24,8 @@ RULE = ('Count-min: program = (depth 1..8, width in {1,2,3,7,64,2^15}, numpy see
         'every query is bracketed by a matrix fingerprint (shape, dtype, crc32 of the buffer). Non-trivial = width < number of distinct items added and at least one '
         'update with weight >= 2. Bounded counter: program = (bound 0..12) + stream of <=60 items (ints and strings from a '
         'pool of <=16) fed one by one with add(); after every add all seen items are compared with the model. Non-trivial = '
-        'more distinct values in the stream than the bound. Distinct = digest of the case.')
+        'more distinct values in the stream than the bound; a second counter clause uses bounds 100..30000 (around and beyond 256) with '
+        'PRNG-built streams of bound-5..bound+200 distinct values. Distinct = digest of the case.')
 ASSUMPTIONS = ['int32 count matrix: totals are kept below 2^31 (code-imposed domain)',
                'items outside the int64 range and non-integer weights are not generated (numba signature of _add)',
                'the sketch draws hash_seeds from the global numpy RNG; the oracle seeds it from the case (np.random.seed)']
@@ -224,7 +225,44 @@ def oracle_counter(case, rec):
     rec.cls(f'bound={bound}', 'stream-exceeds-bound' if len(seen) > bound else 'stream-within-bound')
 
 
-ORACLES = {'C15/count-min': oracle_cms, 'C15/cms-lower': oracle_cms, 'C15/cms-upper': oracle_cms,
+@st.composite
+def counter_big_case(draw):
+    """Bounds around and beyond CPython's small-int cache (256) up to the production default, with streams that exceed them."""
+    bound = draw(st.sampled_from([100, 255, 256, 257, 258, 300, 1000, 4096, 30000]))
+    over = draw(st.sampled_from([0, 1, 2, 10, 200]))
+    distinct = max(1, bound + over - draw(st.sampled_from([0, 0, 0, 5])))
+    return {'bound': bound, 'distinct': distinct, 'repeat': draw(st.integers(1, 3)), 'seed': draw(st.integers(0, 2**32 - 1))}
+
+
+def oracle_counter_big(case, rec):
+    import numpy as np
+    bound, distinct = int(case['bound']), int(case['distinct'])
+    rng = np.random.Generator(np.random.PCG64(int(case['seed'])))
+    order = np.concatenate([rng.permutation(distinct) for _ in range(int(case['repeat']))]).tolist()
+    pc = PrimitiveConstrainedCounter(bound)
+    true = Counter()
+    for k, i in enumerate(order):
+        x = f'value-{i}'
+        pc.add(x)
+        true[x] += 1
+        tracked = len(pc.default_counter)
+        if tracked > bound:
+            raise Violation(f'after add #{k} (bound {bound}, {len(true)} distinct values seen): counter tracks {tracked} distinct values, '
+                            f'more than its bound', kind='C15/counter-size')
+        got = pc.default_counter.get(x, 0)
+        if got > true[x]:
+            raise Violation(f'after add #{k}: count({x!r})={got} over-counts the true {true[x]}', kind='C15/counter-overcount')
+        if len(true) < bound and got != true[x]:
+            raise Violation(f'after add #{k}: fewer than bound ({bound}) distinct values seen but count({x!r})={got} != true {true[x]}',
+                            kind='C15/counter-exact')
+    for y, got in pc.default_counter.items():
+        if got > true.get(y, 0):
+            raise Violation(f'final: count({y!r})={got} over-counts the true {true.get(y, 0)}', kind='C15/counter-overcount')
+    rec.nt(distinct > bound, key=case)
+    rec.cls('bound>256' if bound > 256 else 'bound<=256', 'big-stream-exceeds-bound' if distinct > bound else 'big-stream-within-bound')
+
+
+ORACLES = {'C15/bounded-counter-big': oracle_counter_big, 'C15/count-min': oracle_cms, 'C15/cms-lower': oracle_cms, 'C15/cms-upper': oracle_cms,
            'C15/cms-rows': oracle_cms, 'C15/cms-query-pure': oracle_cms,
            'C15/bounded-counter': oracle_counter, 'C15/counter-size': oracle_counter,
            'C15/counter-overcount': oracle_counter, 'C15/counter-exact': oracle_counter}
@@ -247,6 +285,7 @@ def run(ctx):
     _warm_up()
     clauses = [
         Clause('C15/count-min', cms_case, oracle_cms, quick=4000, thorough=120000, quick_shards=8, thorough_shards=16),
+        Clause('C15/bounded-counter-big', counter_big_case, oracle_counter_big, quick=60, thorough=2000, quick_shards=4),
         Clause('C15/bounded-counter', counter_case, oracle_counter, quick=2400, thorough=80000, quick_shards=4,
                thorough_shards=16),
     ]
